@@ -28,6 +28,7 @@ fn main() {
         "lc-observe" => linecol::observe(rest),
         "pratt-replay" => pratt::replay(rest),
         "pratt-emit" => pratt::emit(rest),
+        "tt-observe" => big_stack(move || tt::observe_cmd(&rest2)),
         "c01-replay" => big_stack(move || c01::replay(&rest2)),
         "stack-replay" => stack::replay(rest),
         "stack-emit" => stack::emit(rest),
